@@ -266,10 +266,15 @@ void GrammarResolver::reset() {
 
 void GrammarResolver::resetCachedGrammar()
 {
+    // Our own XSModel (if any) was derived from the grammar pool's XSModel and
+    // refers to it as its parent; clear() deletes the pool's model, so ours
+    // has to go first (its destructor looks at the parent).
+    delete fXSModel;
+    fXSModel = 0;
+
     //REVISIT: if the pool is locked this will fail... should throw an exception?
-    fGrammarPool->clear();
-    // Even though fXSModel and fGrammarPoolXSModel will be invalid don't touch 
-    // them here as getXSModel will handle this.
+    if (fGrammarPool->clear())
+        fGrammarPoolXSModel = 0;
 
     //to clear all other references to the grammars just deleted from fGrammarPool
     fGrammarFromPool->removeAll(); 
